@@ -85,17 +85,21 @@ theorem assembly_calls_exact :
     assemblyCalls.map (·.1) = ["extension.NewHost", "luahost.New", "msghub.New", "pop3.NewServer", "rest.SetupRoutes", "smtp.NewServer",
       "storage.FromConfig", "storage.NewRetentionScanner", "stringutil.MakePathPrefixer", "web.NewServer", "webui.SetupRoutes"] := by decide
 
-/-- what `*Services` exposes is what was built -/
+/-- what `*Services` exposes is what was built; its one unexported field initialised here (named by its declared
+    type, `~*sync.WaitGroup`, not by its spelling) is a fresh WaitGroup -/
 theorem services_fields :
     servicesLit = [("ExtHost", host), ("LuaHost", "@luahost.New#1"), ("MsgHub", "@msghub.New#1"), ("POP3Server", "@pop3.NewServer#1"),
       ("RetentionScanner", "@storage.NewRetentionScanner#1"), ("SMTPServer", "@smtp.NewServer#1"), ("WebServer", "@web.NewServer#1"),
-      ("ready", "&sync.WaitGroup{}")] := by decide
+      ("~*sync.WaitGroup", "&sync.WaitGroup{}")] := by decide
 
 /-- `Start` starts the hub, the three servers (each with a ready function) and the scanner, all on the caller's context;
-    `Notify` merges the three servers' failure channels -/
+    `Notify` merges the three servers' failure channels.  The ready function is named by ROLE (`~readyFunc`: an
+    unexported method of the receiver that `Add(1)`s the `*sync.WaitGroup` field `Start` waits on and returns a function
+    literal calling that field's `Done`), the merging helper is found by being called from `FullAssembly` on the value it
+    returns — neither by its spelling. -/
 theorem start_and_notify :
-    startedServices = ["$recv.MsgHub.Start($0)", "$recv.POP3Server.Start($0,$recv.makeReadyFunc())", "$recv.RetentionScanner.Start($0)",
-      "$recv.SMTPServer.Start($0,$recv.makeReadyFunc())", "$recv.WebServer.Start($0,$recv.makeReadyFunc())"] ∧
+    startedServices = ["$recv.MsgHub.Start($0)", "$recv.POP3Server.Start($0,$recv.~readyFunc())", "$recv.RetentionScanner.Start($0)",
+      "$recv.SMTPServer.Start($0,$recv.~readyFunc())", "$recv.WebServer.Start($0,$recv.~readyFunc())"] ∧
     watchedServices = ["$recv.POP3Server.Notify()", "$recv.SMTPServer.Notify()", "$recv.WebServer.Notify()"] := by decide
 
 /-! ### storage.FromConfig and the constructors -/
@@ -163,9 +167,12 @@ theorem main_sequence :
       "@server.FullAssembly#1.RetentionScanner.Join"] ∧
     timedExitSleep = "15 * time.Second" := by decide
 
-/-- the signal / service-failure loop: SIGINT, SIGTERM and a failed service all leave it, and every way out cancels the
-    services' context first (otherwise Drain / Join never return and only timedExit ends the process) -/
+/-- the signal / service-failure loop: SIGINT, SIGTERM and a failed service all leave it (and nothing else does), and
+    every way out cancels the services' context before the drain calls (otherwise Drain / Join never return and only
+    timedExit ends the process).  The ways out are computed from path conditions, so a `switch`, an if / else chain, a
+    guard clause, and one cancel call per branch or a single one right after the loop are the same fact. -/
 theorem main_loop_cancels :
+    mainLoopWays = [("notify", true), ("signal:syscall.SIGINT", true), ("signal:syscall.SIGTERM", true)] ∧
     mainLoopExits = (3, 0) ∧ mainSignals = ["syscall.SIGINT", "syscall.SIGTERM"] ∧ mainWatchesServiceFailure = true := by decide
 
 /-- `argsOf` distinguishes: a function that is not called has no arguments -/
